@@ -393,7 +393,7 @@ Definition price_modules : list string :=
   ["vault"; "locker"; "lend"; "liquidation"; "liquidationsV2"; "auction"; "auctionsV2"].
 Definition price_unverified : list (string * string) :=
   [("liquidation.MsgLiquidateBorrow",
-    "cross-pool branches and UpdateLockedBorrows assign the price error to _ (msg_server.go:163,177; liquidate_borrow.go)");
+    "cross-pool branches and UpdateLockedBorrows assign the price error to _ (msg_server.go:169,183 - repaired by C14-F2; UpdateLockedBorrows in liquidate_borrow.go)");
    ("auction.MsgPlaceDutchLendBid",
     "the close path reaches lend.CreteNewBorrow / liquidation.UpdateLockedBorrows which assign the price error to _")].
 Definition price_scope : list handler :=
